@@ -76,6 +76,7 @@ inductive Out
   | result (ref : Option Nat) (err : Nat) (src dst : Addr) (sdev : Option Nat)
   | readReq (fn : Nat) (src dst : Addr)
   | notify (fn : Nat) (src dst : Addr) (val : Nat)
+  | subReq                                  -- the local node management asks the peer's for a subscription (a `call`)
   | panic
 deriving Repr, DecidableEq
 
@@ -259,6 +260,7 @@ inductive Call
   | bind (c s : Addr) (typ : Nat)      -- nodeManagementBindingRequestCall: client, server, server feature type
   | unbind (c s : Addr)                -- nodeManagementBindingDeleteCall (client device = the sender's or omitted)
   | sub (c s : Addr) (typ : Nat)       -- nodeManagementSubscriptionRequestCall
+  | unsub (c s : Addr)                 -- nodeManagementSubscriptionDeleteCall (client device = the sender's or omitted)
 deriving Repr
 
 def nmAddr : Addr := ([0], 0)
@@ -286,6 +288,10 @@ def callOk (w : W) (p : Nat) : Call → Bool
     match locF w s, remF w p c with
     | some lf, some rf => srvOk lf typ && cliOk rf typ && !(w.subs.any fun b => b.1 = s && b.2.1 = p && b.2.2 = c)
     | _, _ => false
+  | .unsub c s =>
+    match locF w s, remF w p c with
+    | some _, some _ => w.subs.any fun b => b.1 = s && b.2.1 = p && b.2.2 = c
+    | _, _ => false
 
 /-- which entries `RemoveBinding` drops -/
 def unbindDrops (cfg : Cfg) (s : Addr) (p : Nat) (c : Addr) (b : Entry) : Bool :=
@@ -299,6 +305,7 @@ def callApply (w : W) (p : Nat) : Call → W
   | .bind c s _ => { w with binds := w.binds ++ [(s, p, c)] }
   | .unbind c s => { w with binds := w.binds.filter fun b => !unbindDrops w.cfg s p c b }
   | .sub c s _ => { w with subs := w.subs ++ [(s, p, c)] }
+  | .unsub c s => { w with subs := w.subs.filter fun b => !(b.1 = s && b.2.1 = p && b.2.2 = c) }
 
 def connected (w : W) (p : Nat) : Bool := (remF w p nmAddr).isSome
 
@@ -332,6 +339,19 @@ def processEntAdd (w : W) (p : Nat) (e : List Nat) (ctr : Nat) (ack : Bool) : W 
   let feats := (pr.feats.filter fun f => f.ent ≠ e) ++ (w.fresh.feats.filter fun f => f.ent = e)
   (bump (setPeer w p { pr with feats := feats }) outs, outs)
 
+/-- a repeated discovery *reply* of a connected peer (legal at any time): every announced entity is announced again
+    with its features (new feature objects in the code; the registries keep their entries, which stay addressable),
+    the device-added event makes the local node management ask again for the subscription and the use-case data
+    (withheld while the identical request is unanswered), then the acknowledgement if requested -/
+def processReann (w : W) (p : Nat) (ctr : Nat) (ref : Option Nat) (ack : Bool) : W × List (Nat × Out) :=
+  if !connected w p then (w, []) else
+  let pr1 := { answered (w.peers p) ref with feats := w.fresh.feats }
+  let r1 := request pr1 nmAddr 1000
+  let r2 := request r1.1 nmAddr 902
+  let outs := (if r1.2 then [(p, Out.subReq)] else []) ++ (if r2.2 then [(p, Out.readReq 902 nmAddr nmAddr)] else []) ++
+    (if ack then [(p, Out.result (some ctr) 0 nmAddr nmAddr (some 0))] else [])
+  (setPeer w p (sendN r2.1 (if ack then 1 else 0)), outs)
+
 /-- `RemoveRemoteDeviceConnection`: the registries lose what `RemoveSubscriptionsForDevice` /
     `RemoveBindingsForDevice` drop (entity by entity), the connection's sender and tree are gone -/
 def dropPeer (w : W) (p : Nat) : W :=
@@ -362,6 +382,7 @@ inductive Op
   | drop (p : Nat)
   | conn (p : Nat)
   | setData (a : Addr) (fn v : Nat)
+  | reann (p : Nat) (ctr : Nat) (ref : Option Nat) (ack : Bool)
 deriving Repr
 
 def step (w : W) : Op → W × List (Nat × Out)
@@ -372,6 +393,7 @@ def step (w : W) : Op → W × List (Nat × Out)
   | .drop p => (dropPeer w p, [])
   | .conn p => (connPeer w p, [])
   | .setData a fn v => localSet w a fn v
+  | .reann p ctr ref ack => processReann w p ctr ref ack
 
 def run (w : W) (ops : List Op) : W := ops.foldl (fun w o => (step w o).1) w
 
